@@ -51,6 +51,8 @@ type BarSpec struct {
 	ExtErrAt  int
 	ExtNoNL   bool // the extender's last line is not newline-terminated
 	FillErrAt int
+	// FillErrWhenDone: the filler fails on every frame that shows the bar completed or aborted
+	FillErrWhenDone bool
 	// NilBuilder: the bar is created with Progress.New(total, nil, options...): no filler of its own
 	NilBuilder bool
 	Pre, App   []DecorSpec
@@ -172,6 +174,9 @@ func (sp *Spec) String() string {
 		}
 		if bs.FillErrAt > 0 {
 			fmt.Fprintf(&b, ",fillerr@%d", bs.FillErrAt)
+		}
+		if bs.FillErrWhenDone {
+			b.WriteString(",fillerr-when-done")
 		}
 		if bs.ExtErrAt > 0 {
 			fmt.Fprintf(&b, ",exterr@%d", bs.ExtErrAt)
@@ -477,7 +482,7 @@ func (r *runner) barOptions(i int) (mpb.BarFiller, []mpb.BarOption) {
 		if st.Completed || st.Aborted {
 			x.TermFills[i]++
 		}
-		if bs.FillErrAt != 0 && nfill >= bs.FillErrAt {
+		if (bs.FillErrAt != 0 && nfill >= bs.FillErrAt) || (bs.FillErrWhenDone && (st.Completed || st.Aborted)) {
 			if x.FaultStep == 0 {
 				x.FaultStep = mcrt.Step()
 				x.FaultText = errFill.Error()
